@@ -475,7 +475,7 @@ pub fn executed_mask(trace: &[Ev], regime: Regime) -> Vec<bool> {
 
 /// Which events executed, and which node every slot holds after every event.
 pub fn executed_mask_nodes(trace: &[Ev], regime: Regime) -> (Vec<bool>, Vec<Vec<Option<usize>>>) {
-    let mut sim = Sim::new(crate::sim::SimCfg { regime, monitors: false });
+    let mut sim = Sim::new(crate::sim::SimCfg { regime, monitors: false, guard_mag: false });
     let mut m = Vec::with_capacity(trace.len());
     let mut nodes = Vec::with_capacity(trace.len());
     for e in trace {
@@ -546,7 +546,12 @@ pub fn c17_case(events: &[Ev], regime: Regime, case: &C17Case) -> (Vec<Violation
     let with_seed = |seed: Seed| -> Sim {
         let mut evs: Vec<Ev> = events[..e].to_vec();
         evs.push(Ev::Pass { root, seed, via_clone });
-        run_trace(&evs, regime, false)
+        // the magnitude guard keeps integer data exact in every fork (a guarded pass leaves no deposit)
+        let mut sim = Sim::new(crate::sim::SimCfg { regime, monitors: false, guard_mag: true });
+        let mut src = crate::train::ListSource { evs: &evs, i: 0 };
+        let mut rec = Vec::new();
+        crate::train::drive(&mut sim, &mut src, &mut rec);
+        sim
     };
     let comb: Vec<f64> = case.s1.iter().zip(&case.s2).map(|(a, b)| case.alpha * a + case.beta * b).collect();
     let f1 = with_seed(Seed::Vals(case.s1.clone()));
@@ -559,6 +564,10 @@ pub fn c17_case(events: &[Ev], regime: Regime, case: &C17Case) -> (Vec<Violation
         return (viols, forks); // panicking passes are C01's business
     }
     if f1.event_index <= e {
+        return (viols, forks);
+    }
+    // a pass skipped by the magnitude guard in any fork: nothing to compare
+    if [&f1, &f2, &f3, &fnone, &fones].iter().any(|f| f.status_log.get(e) != Some(&1)) {
         return (viols, forks);
     }
     // omitted seed == ones, bitwise
@@ -606,7 +615,7 @@ pub fn c17_case(events: &[Ev], regime: Regime, case: &C17Case) -> (Vec<Violation
                 for i in 0..c.len() {
                     let want = case.alpha * a[i] + case.beta * b[i];
                     let mag = case.alpha.abs() * a[i].abs() + case.beta.abs() * b[i].abs() + c[i].abs() + 3.0 * bef_mag[i] + 3.0 * (node_mag[i] + mmax + vmax * smax);
-                    let integral = regime == Regime::Int && [a[i], b[i], c[i], bef_mag[i]].iter().all(|x| (x * 4.0).fract() == 0.0 && x.abs() < crate::sim::exact_bound());
+                    let integral = regime == Regime::Int && [a[i], b[i], c[i], bef_mag[i]].iter().all(|x| x.abs() < crate::sim::exact_bound());
                     let ok = if integral { c[i] == want } else { (c[i] - want).abs() <= tol_k() * eps() * mag + 1e-300 };
                     if !ok {
                         viols.push(v("C17", "seed_linearity", format!("alpha {} beta {}", case.alpha, case.beta), e, format!("slot s{} element {}: deposit with alpha*s1+beta*s2 is {}, alpha*deposit(s1)+beta*deposit(s2) is {} (s1 {:?}, s2 {:?})", s, i, c[i], want, case.s1, case.s2)));
